@@ -376,6 +376,16 @@ def expand(state, col):
     txns = [((op, "rel"),) for op in ops] + [((op, "abs"),) for op in ops[::3]]
     for recs in ((), (("_d", "NS"),), (("b.a", "A"), ("a", "A")), (("c.b.a", "NS"), ("x._d", "A")), (("a", "NS"), ("b.a", "NS"))):
         txns.append(((("reload", recs), "rel"),))
+    eval_only = set()   # judged in full, but (quick) not used to extend the frontier: the content they
+    #                     reach is reachable by single operations, and derived state is judged here
+    # two operations on ONE name in one transaction (the second finds the node already copied and
+    # flagged by the first): touch-then-uncut, touch-then-cut, cut-then-uncut, uncut-then-cut
+    for k in NAMES:
+        if k != "@":
+            for a, b in ((("add", k, "A"), ("del", k, "NS")), (("add", k, "A"), ("add", k, "NS")),
+                         (("add", k, "NS"), ("del", k, "NS")), (("del", k, "NS"), ("add", k, "NS"))):
+                txns.append(((a, "rel"), (b, "rel")))
+                eval_only.add(txns[-1])
     if pairs and len(history) <= 1:
         txns += [((a, "rel"), (b, "rel")) for a in ops for b in ops if a[1] != b[1] or a[0] != b[0]]
     for t in txns:
@@ -388,7 +398,8 @@ def expand(state, col):
             col.violation("C20/" + s, w + " (history %s)" % (h2,), case)
         if cn is not None:
             col.nontrivial((rel, cn))
-            yield (rel, cn), (rel, h2, pairs)
+            if pairs or t not in eval_only:
+                yield (rel, cn), (rel, h2, pairs)
     if len(history) == 2:
         col.sample({"relativize": rel, "history": [[[list(o), f] for o, f in tt] for tt in history]}, limit=2)
 
